@@ -59,7 +59,22 @@ def rule_lazy_ctor(ctx, R, rules=None):
                 if b is None:
                     continue
                 S, ls = _ctor_literal(lib, b, I)
-                if want("LAZY-CTOR"):
+                delegated = False
+                if not ls and twin and name == meth and v.methods.get(twin) is not None:
+                    # the slice entry point written as a delegation to its `_from_iter` twin on the adapted source: it builds what
+                    # the twin builds with the twin's source parameter replaced by the adapter (and refuses what the twin refuses)
+                    tw = v.methods[twin]
+                    dcalls = [s_ for s_ in S.calls if s_["vw"] is S.root and s_["c"].body_path == tw.path]
+                    rt = pnorm(S.root.ret())
+                    if len(dcalls) == 1 and rt[0] == "call" and rt[3] == (b.path, dcalls[0]["bb"]) and m(Par(1), dcalls[0]["args"][0]) and \
+                            all(b.dominates(dcalls[0]["bb"], r_) for r_ in b.return_blocks()):
+                        from .view import ret_term
+                        lit = ret_term(lib, tw.path, dcalls[0]["args"])
+                        lit = pnorm(lit) if lit is not None else None
+                        if lit is not None and lit[0] == "agg" and lit[1] == I:
+                            ls = [lit]
+                            delegated = True
+                if want("LAZY-CTOR") and not delegated:
                     _kind_assert(ctx, b, S, pred, "LAZY-CTOR", tag + ":" + name)
                 if len(ls) != 1:
                     ctx.bad("LAZY-CTOR", b, "single-literal:" + tag, b.span, "exactly one %s literal expected" % I)
@@ -270,6 +285,18 @@ def rule_dec(ctx, R):
             t = pnorm(root.T.rvalue(st["rv"]))
             sites.append((bi, si, t[1][0], t[1][1]))
     ctx.check(len(sites) == 4, "DEC", b, "four-result-sites", b.span, "four (end offset, code point) results expected, one per width; found %d" % len(sites))
+    # the `+ 1` of the end offset may be applied in each branch or once after them (hoisted): look at what is returned
+    plus_after = False
+    rt_ = pnorm(root.ret())
+    for x_ in members(rt_):
+        if x_[0] == "agg" and x_[2] == "Some":
+            tup_ = dict(x_[3]).get("0")
+            if tup_ is not None and tup_[0] == "tuple" and len(tup_[1]) == 2:
+                e_ = tup_[1][0]
+                if e_[0] in ("bin", "ovf") and e_[1] == "Add" and (is_const(e_[2], 1) or is_const(e_[3], 1)):
+                    inner_ = e_[3] if is_const(e_[2], 1) else e_[2]
+                    site_ends = core.mk_phi([s_[2] for s_ in sites]) if sites else ("undef",)
+                    plus_after = core.same(inner_, site_ends)
     seen_w = set()
     for bi, si, end, code in sites:
         # width = number of pulls dominating the site
@@ -304,7 +331,7 @@ def rule_dec(ctx, R):
                   % (w, [(i, hex(mk) if mk else None, sh) for i, mk, sh in wantp], [(i, hex(mk) if mk else None, sh) for i, mk, sh in got], show(code)), show(code))
         # end offset = index of the last pulled byte + 1
         last = F(P(C(anykey, ANY, site=psites[w - 1])), "0", "(tuple)") if 1 <= w <= 4 else ANY
-        ctx.check(m(B("Add", last, K(1)), end), "DEC", b, "width-%d-end" % w, loc,
+        ctx.check(m(last, end) if plus_after else m(B("Add", last, K(1)), end), "DEC", b, "width-%d-end" % w, loc,
                   "the end offset of a %d-byte character is (index of its last byte) + 1; found %s" % (w, show(end)), show(end))
     ctx.check(seen_w == {1, 2, 3, 4}, "DEC", b, "all-widths", b.span, "results for widths 1..4 expected; found %s" % sorted(seen_w))
     # continuation pulls happen only when the width demands them
